@@ -150,7 +150,15 @@ def gen_case(rng):
             inner_attr = "(start = %s)" % cattrs["start"]
             tags.add("attr:scalar-in-component-array")
         pre = "model C\n  Real zz[%d]%s;\n  Real s;\nequation\n  der(zz) = -zz;\n  s = sum(zz);\nend C;\n\n" % (nz, inner_attr)
-        decls.append("  C c[%d];" % nc)
+        outer = ""
+        if rng.random() < 0.4:
+            # a second list attribute, given from outside through the component array: it spans both levels
+            oa = rng.choice(["nominal", "max"])
+            cattrs = dict(cattrs)
+            cattrs[oa] = lit_array(rng, [nc, nz], 1, 9)
+            outer = "(zz(%s = %s))" % (oa, fmt(cattrs[oa]))
+            tags.add("attr:array-through-component-array-modification")
+        decls.append("  C c[%d]%s;" % (nc, outer))
         arrays["c.zz"] = {"dims": [[nc], [nz]], "attrs": cattrs, "list": "states", "inner_attr": True}
         arrays["c.s"] = {"dims": [[nc], []], "attrs": {}, "list": "alg_states"}
         tags.add("component-array-holding-array")
